@@ -24,11 +24,35 @@
     the decoded pack and the unpacked items are looked at again after the later calls), gen minimal (per count-prefixed
     section of every type 1 / 2 / 255 elements of minimal encoding and nothing else, read from exactly the encoding;
     containers over minimal items).
+(E) The decoding process is not a parameter of the property: gen env records the codec histories once more in a CHILD
+    PROCESS of the harness whose environment sets every variable the repository's source reads (os.Getenv / LookupEnv
+    with a literal name; today WHATAP.starttime in NewCounterPack1) to a non-default value: per type the all-zero instance
+    and sparse instances (every scalar leaf zero with probability 1/2), containers / record lists over sparse and minimal
+    items.  Design level: MC_PackCodec_envdefault.cfg (refuted: a reader that takes a cell from the wire only when it is
+    not zero, decoding into an object whose constructor took the cell from the environment: CarriedRestored).
 (drift) Trace_PackCodec_drift.cfg (Strict = TRUE): the same traces against the TRANSCRIBED tables of the spec
     (registry, per-type carried fields, header bytes, type tag): disagreement alone is a stale spec: exit 2
     (spec_drift), never a violation."""
-import json, os
+import json, os, re
 import vf
+
+
+def env_names():
+    """the environment variables the repository's (non-test) source reads by literal name: the child process of gen env
+    sets every one of them to a non-default value"""
+    names = set()
+    for d, sub, files in os.walk(vf.REPO):
+        sub[:] = [x for x in sub if not x.startswith(".") and x not in ("vendor", "testdata")]
+        for f in files:
+            if f.endswith(".go") and not f.endswith("_test.go"):
+                try:
+                    src = open(os.path.join(d, f), errors="replace").read()
+                except OSError:
+                    continue
+                for m in re.finditer(r'os\.(?:Getenv|LookupEnv)\(\s*"([^"\\]+)"', src):
+                    if re.fullmatch(r"[A-Za-z0-9_.\-]+", m.group(1)):
+                        names.add(m.group(1))
+    return sorted(names)
 
 
 def pending_findings(run):
@@ -45,7 +69,7 @@ def drift(run, out, meta):
     """second, strict pass over the traces (the long lists of gen counts and the object-life / hold / minimal histories add
     nothing to it: the same writers, the same tables); one TLC per file, in parallel"""
     from concurrent.futures import ThreadPoolExecutor
-    jobs = [j for j in meta.get("jobs", []) if not j["trace"].startswith(("c03_counts", "c03_life", "c03_hold", "c03_min"))
+    jobs = [j for j in meta.get("jobs", []) if not j["trace"].startswith(("c03_counts", "c03_life", "c03_hold", "c03_min", "c03_env"))
             and open(os.path.join(out, j["trace"])).read(64).strip()]
     st = run.trace_states
 
@@ -96,6 +120,8 @@ def body(run):
         run.mc("MC_PackCodec", cfg="MC_PackCodec_nostamp.cfg", expect_violation="UnpackLaw", workers=2)
         run.mc("MC_PackCodec", cfg="MC_PackCodec_reverse.cfg", expect_violation="UnpackLaw", workers=2)
         run.mc("MC_PackCodec", cfg="MC_PackCodec_signedcell.cfg", expect_violation="CarriedRestored", workers=2)
+        # the decoding process: a reader that leaves a zero cell to what the constructor took from the environment
+        run.mc("MC_PackCodec", cfg="MC_PackCodec_envdefault.cfg", expect_violation="CarriedRestored", workers=2)
         # objects that live on (PackCodec part 5): two live packs / containers in every interleaving, write / change /
         # write again; refuted: a compressor and a writer that hand out a view of one re-used buffer, a writer that
         # keeps what it sent last and refreshes it only from a non-zero field
@@ -112,7 +138,7 @@ def body(run):
     pool = ThreadPoolExecutor(max_workers=1)
     mcs = pool.submit(design)
     try:
-        out, meta = run.drive("c03")
+        out, meta = run.drive("c03", args={"envnames": "+".join(env_names())})
         run.absorb(meta)
         run.validate(out, meta)
         run.selftest(out, meta, gen="codec", field="consumed")
@@ -122,6 +148,7 @@ def body(run):
         run.selftest(out, meta, gen="life", field="again")
         run.selftest(out, meta, gen="hold", field="same")
         run.selftest(out, meta, gen="minimal", field="consumed")
+        run.selftest(out, meta, gen="env", field="consumed")
         if run.violations:
             vf.log("drift check skipped: the verdict pass already rejected real-code behaviour")
         else:
@@ -144,5 +171,6 @@ def body(run):
         "gen life: the content of the object at a write is what the reflection walker projects just before it; the four reserved attributes EventPack.Write carries uuid / escalation / status / otype under are the writer's, not content (not projected; Read takes them out of a decoded pack too); the carried set of a later write is the union of the leaves the real writer is sensitive to in THAT state of the object (probes on copies that lived the same life: same seed, same writes, same changes) and of the leaves a never-written twin of the same content carries (where the twin holds the same leaf value): a writer that sends what it kept from an earlier write instead of a field is insensitive to that field",
         "gen hold: aliasing is looked for between calls of ONE goroutine (a value handed out and changed by a later call); re-observation is by reading only -- the input handed to a reader is never scribbled on afterwards",
         "gen minimal: the sections of a type are found by populating it (sections inside elements of other sections by giving those one element); a minimal element is: integers / decimals / floats 0, texts and blobs empty, booleans false, tagged values null, tables and lists without elements, optional records left out unless the writer needs them; one-byte count cells are filled to their limit (255 less what the writer adds itself)",
+        "gen env: the environment of the decoding process is every variable the repository's non-test source reads through os.Getenv / os.LookupEnv with a literal name (found by a textual scan; names computed at run time are not found), each set to a positive decimal number that depends on the seed; the writer runs in the same child process (its objects are populated field by field, so what a constructor took from the environment is overwritten before the write); clock and host are whatever the machine gives (a constructor's clock reading is never zero: the all-zero instances of gens minimal / env send a zero against it)",
         "decoding into an object that was decoded into before (Read(din) twice on one pack) is NOT explored: every reader of golib decodes into a pack CreatePack has just made (ToPack / ReadPack / GetRecords), and a short-form header or an absent optional section deliberately leaves the fields of the receiving object alone",
     ]
